@@ -27,6 +27,7 @@
 #      along with this program.  If not, see <https://www.gnu.org/licenses/>.
 
 """Handling for log actions."""
+import string
 
 from typing import TYPE_CHECKING, List, Dict, Optional
 
@@ -62,37 +63,49 @@ class LogActionContext(ActionContext):
             (list) watch: the watch results from the expressions
             (dic) vars: the collected variables
         """
-        ctx_self = self
-        watch_results = []
-        _var_lookup = {}
+        extractor = FormatExtractor(self)
+        log_msg = "[deep] %s" % extractor.vformat(log_msg, (), FormatDict(self.trigger_context.locals))
+        return log_msg, extractor.watch_results, extractor.var_lookup
 
-        class FormatDict(dict):
-            """This type is used in the log process to ensure that missing values are formatted don't error."""
 
-            def __missing__(self, key):
-                return "{%s}" % key
+class FormatDict(dict):
+    """This type is used in the log process to ensure that missing values are formatted don't error."""
 
-        import string
+    def __missing__(self, key):
+        """Format a missing value as the field it came from."""
+        return "{%s}" % key
 
-        class FormatExtractor(string.Formatter):
-            """
-            Allows logs to be formatted correctly.
 
-            This type allows us to use watches within log strings and collect the watch
-            as well as interpolate the values.
-            """
+class FormatExtractor(string.Formatter):
+    """
+    Allows logs to be formatted correctly.
 
-            def get_field(self, field_name, args, kwargs):
-                # evaluate watch
-                watch, var_lookup, log_str = ctx_self.eval_watch(field_name, WATCH_SOURCE_LOG)
-                # collect data
-                watch_results.append(watch)
-                _var_lookup.update(var_lookup)
+    This type allows us to use watches within log strings and collect the watch
+    as well as interpolate the values.
 
-                return log_str, field_name
+    (It is not defined inside process_log: a class is only ever released by the garbage collector, and one created per
+    call would keep the action context, and through it the application's frame, alive until then.)
+    """
 
-        log_msg = "[deep] %s" % FormatExtractor().vformat(log_msg, (), FormatDict(self.trigger_context.locals))
-        return log_msg, watch_results, _var_lookup
+    def __init__(self, context: 'LogActionContext'):
+        """
+        Create a new extractor.
+
+        :param context: the log action context to evaluate the fields with
+        """
+        self.__context = context
+        self.watch_results = []
+        self.var_lookup = {}
+
+    def get_field(self, field_name, args, kwargs):
+        """Evaluate the field as a watch, and collect the result."""
+        # evaluate watch
+        watch, var_lookup, log_str = self.__context.eval_watch(field_name, WATCH_SOURCE_LOG)
+        # collect data
+        self.watch_results.append(watch)
+        self.var_lookup.update(var_lookup)
+
+        return log_str, field_name
 
 
 class LogActionResult(ActionResult):
